@@ -991,9 +991,17 @@ func runDrift(dir string, n int) map[string]interface{} {
 	total := 0
 	var first []interface{}
 	var errs []string
+	byFn := map[string]int{}
 	for _, x := range res {
 		total += len(x.tuples)
 		for _, t := range x.tuples {
+			name := t[0]
+			for _, f := range fns {
+				if fmt.Sprint(f.id) == t[0] {
+					name = f.name
+				}
+			}
+			byFn[name]++
 			if len(first) < 20 {
 				first = append(first, map[string]interface{}{"file": x.file, "fid": t[0], "case": t[1], "job": t[2]})
 			}
@@ -1002,6 +1010,6 @@ func runDrift(dir string, n int) map[string]interface{} {
 			errs = append(errs, x.file+": "+x.err)
 		}
 	}
-	return map[string]interface{}{"cases_where_mirror_differs": total, "first": first, "not_evaluated": errs,
+	return map[string]interface{}{"cases_where_mirror_differs": total, "by_function": byFn, "first": first, "not_evaluated": errs,
 		"note": "diagnostic only: the verdict compares the implementation with the specification"}
 }
